@@ -26,13 +26,20 @@ func init() {
 				Rule: "plane 1 (direct call of the log-backed accounter with a recording sink and Response): every flag octet x seq{1,3,5} x enum profiles; plane 2: every 4-tuple of content tokens " +
 					"{plain,%,%s%d,100%,%!v(,\",\\,\\n,\\x00,\\x7f,'a b',<&>,255x%} in user/port/rem_addr/argument, argument counts {0,1,2,255}; plane 3 (full reference server over the scripted network): " +
 					"all arrival orders of length <= 3 over {start,stop,watchdog@1,watchdog-update@3,bad-flags,undecodable} x {same,different} session ids x users {with accounter, unknown, without accounter}, " +
-					"checking that the sink call precedes the reply's write on the global event clock. Oracle: a SUCCESS reply implies exactly one sink call whose rendered line (format and arguments as log.Logger would print them) " +
+					"checking that the sink call precedes the reply's write on the global event clock; plane 4 (engine E2): two connections sending accounting records concurrently under the controlled scheduler with statement-level points in the accounter, every schedule with <= 1 (quick) / 2 (thorough) deviations. Oracle: a SUCCESS reply implies exactly one sink call whose rendered line (format and arguments as log.Logger would print them) " +
 					"JSON-decodes to exactly the request's fields; undecodable / stop+watchdog / unknown user / no accounter are answered ERROR. distinct_nontrivial = distinct requests answered SUCCESS (by content hash)",
 				Assumptions: []string{"the sink is rendered with fmt.Sprintf(format, args...), which is what log.Logger.Printf does"}}
 		},
-		Workers: constInt(16, 16),
-		Run:     c12Run,
-		Replay:  c12Replay,
+		Workers:      constInt(16, 16),
+		SchedWorkers: constInt(1, 1),
+		Run: func(c *Ctx) {
+			if c.Param == "sched" {
+				schedRun(c)
+				return
+			}
+			c12Run(c)
+		},
+		Replay: c12Replay,
 	}
 }
 
